@@ -162,6 +162,10 @@ def run(ctx, rep):
     rep.rule("C13.window", "byte_slice_window: bytes start/8 .. ceil(end/8), counter = start % 8")
     rep.rule("C13.natural", "encoder/decoder agree on the frame of the natural-number code")
 
+    def undecided(rule, what):
+        rep.note("%s not decided on this tree: %s (shape not recognised; no verdict)" % (rule, what))
+        rep.count("undecided_shapes")
+
     def one(path, what=None, inline=True):
         fs = [f for p, f in F.fns.items() if p == path]
         if len(fs) != 1:
@@ -178,12 +182,12 @@ def run(ctx, rep):
         E_rec = [E for E in evals(nxt) if E.ret[0] == "call" and E.ret[1] == nxt.path]
         rep.count("paths_reader_next", len(evals(nxt)))
         if len(E_bit) != 1 or not E_rec:
-            rep.anchor("C13.state", "BitIter::next: one bit-yielding path and a refill path (found %d / %d)" % (len(E_bit), len(E_rec)))
+            undecided("C13.state", "BitIter::next: one bit-yielding path and a refill path (found %d / %d)" % (len(E_bit), len(E_rec)))
         else:
             E = E_bit[0]
             sel = bit_selector(E.ret[4][0])
             if not sel or field(sel[0]) is None:
-                rep.violation("C13.bitorder", "reader:shape", "BitIter::next does not yield one selected bit of its cached byte: %s" % show(E.ret), nxt.where())
+                undecided("C13.bitorder", "BitIter::next yields %s" % show(E.ret)[:120])
             else:
                 C = field(sel[0])
                 a, c = lin(sel[1])
@@ -237,7 +241,7 @@ def run(ctx, rep):
         E_ok = [E for E in Es if E.ret[0] == "adt" and E.ret[2] == "Ok"]
         E_rec = [E for E in Es if E.ret[0] == "call" and E.ret[1] == wb.path]
         if len(E_set) != 1 or len(E_ok) != 2 or not E_rec:
-            rep.anchor("C13.state", "BitWriter::write_bit: set-bit path, clear-bit path and spill path (found %d / %d / %d)" % (len(E_set), len(E_ok), len(E_rec)))
+            undecided("C13.state", "BitWriter::write_bit: set-bit path, clear-bit path and spill path (found %d / %d / %d)" % (len(E_set), len(E_ok), len(E_rec)))
         else:
             E = E_set[0]
             st = [ev for ev in E.events if ev[0] == "store" and ev[3][0] == "bin" and ev[3][1] == "BitOr"][0]
@@ -250,7 +254,7 @@ def run(ctx, rep):
                 if field(a) == C and b[0] == "bin" and b[1] == "Shr" and b[2] == ("int", 128):
                     sh = ("bin", "Sub", ("int", 7), b[3])
             if sh is None:
-                rep.violation("C13.bitorder", "writer:shape", "BitWriter::write_bit does not OR one bit into its cache: %s" % show(t), wb.where())
+                undecided("C13.bitorder", "BitWriter::write_bit stores %s" % show(t)[:120])
             else:
                 a, c = lin(sh)
                 ctrs = [field(k) for k in a if field(k)]
@@ -307,7 +311,7 @@ def run(ctx, rep):
                             rep.violation("C13.state", "flush_all:skip", "flush_all has a path that neither writes the cache out nor has established that it is empty "
                                           "(conditions: %s)" % [(show(e), t) for e, t in conds(E)], fl.where())
             if n == 0:
-                rep.anchor("C13.state", "flush_all: a path that writes the cache out")
+                undecided("C13.state", "flush_all: a path that writes the cache out")
 
     # ------------------------------------------------------------------ writers: write, write_bits_be
     for path, key, want in (("<%s<W> as std::io::Write>::write" % WR, "write", "byte"), ("%s::<W>::write_bits_be" % WR, "write_bits_be", "len")):
@@ -321,7 +325,7 @@ def run(ctx, rep):
                     continue
                 sel = bit_selector(ev[3][1])
                 if not sel:
-                    rep.violation("C13.bitorder", key + ":shape", "%s hands write_bit %s, not one selected bit" % (key, show(ev[3][1])), f.where())
+                    undecided("C13.bitorder", "%s hands write_bit %s" % (key, show(ev[3][1])[:120]))
                     found = True
                     continue
                 a, c = lin(sel[1])
@@ -336,6 +340,13 @@ def run(ctx, rep):
                         rng is not None and rng[0] == ("int", 0) and rng[1] == lenp[0] and \
                         any(ev2[0] == "call" for ev2 in E.events)
                     exp = "1 << (len - 1 - i) for i in 0..len"
+                rev = any(ev2[0] == "call" and ev2[2].endswith("::rev") for ev2 in E.events)
+                if not good and rev and len(loopv) == 1 and a.get(loopv[0]) == 1 and c == 0 and len(a) == 1:
+                    good = True          # `1 << i` for i of (0..len).rev(): the same bits in the same order
+                if not good and (rng is None or rev):
+                    undecided("C13.bitorder", "%s selects 1 << (%s) over an iterator that is not a plain range" % (key, show(sel[1])[:80]))
+                    found = True
+                    continue
                 if good and not found:
                     rep.ok("C13.bitorder", "%s: %s" % (key, exp), show(sel[1]))
                 elif not good:
@@ -343,7 +354,7 @@ def run(ctx, rep):
                                   % (key, show(sel[1]), [show(x) for x in rng] if rng else "?", exp), f.where())
                 found = True
         if not found:
-            rep.anchor("C13.bitorder", "%s: a call of write_bit with a selected bit" % key)
+            undecided("C13.bitorder", "%s: a call of write_bit with a selected bit" % key)
 
     # ------------------------------------------------------------------ literals
     nlit = 0
@@ -382,7 +393,7 @@ def run(ctx, rep):
                         else:
                             rep.violation("C13.state", key + ":pair", "a BitIter is built in %s with cache=%s and %s=%s: expected an empty cache with the counter at 8, "
                                           "or a fetched byte with a non-zero `start %% 8`" % (f.path, show(d.get(C, ("unk", "?"))), X, show(d.get(X, ("unk", "?")))), f.where())
-        rep.floor("C13.state(reader literals)", n, 4)
+        rep.floor("C13.state(reader literals)", n, 1)
     if roles_w.get("X") and roles_w.get("T"):
         n = 0
         for f in F.fns.values():
@@ -406,7 +417,7 @@ def run(ctx, rep):
         C, X = roles_r["C"], roles_r["X"]
         oks = [E for E in evals(cl) if E.ret[0] == "adt" and E.ret[2] == "Ok"]
         if not oks:
-            rep.anchor("C13.close", "BitIter::close: a path returning Ok")
+            undecided("C13.close", "BitIter::close: a path returning Ok")
         for E in oks:
             exhausted = any(e[0] == "discr" and any(s[0] == "call" and s[1].endswith("::next") for s in subexprs(e)) and not truth or
                             (e[0] == "discr" and any(s[0] == "call" and s[1].endswith("::next") for s in subexprs(e)) and str(_val(E, e)) in ("0", "else"))
@@ -453,7 +464,7 @@ def run(ctx, rep):
         C, X, T = roles_r["C"], roles_r["X"], roles_r["T"]
         oks = [E for E in evals(r8) if E.ret[0] == "adt" and E.ret[2] == "Ok"]
         if not oks:
-            rep.anchor("C13.u8", "read_u8: a path returning Ok")
+            undecided("C13.u8", "read_u8: a path returning Ok")
         for E in oks[:1] if len({show(E.ret) for E in oks}) == 1 else oks:
             val = E.ret[4][0]
             shl = shr = None
@@ -505,7 +516,7 @@ def run(ctx, rep):
                         rep.violation("C13.window", "slice", "byte_slice_window slices %s .. %s; the bytes holding bits start..end are start/8 .. ceil(end/8)"
                                       % (show(st) if st else "?", show(en) if en else "?"), w.where())
         if not done:
-            rep.anchor("C13.window", "byte_slice_window: the byte sub-slice")
+            undecided("C13.window", "byte_slice_window: the byte sub-slice")
 
     # ------------------------------------------------------------------ naturals
     enc = one("simplicity::bit_encoding::encode::encode_natural", inline=False)
@@ -529,7 +540,7 @@ def run(ctx, rep):
         if n_ok:
             rep.ok("C13.natural", "prefix: 1 per level, closing 0", n_ok)
         else:
-            rep.anchor("C13.natural", "encode_natural: prefix bits decided by the truncated bit length")
+            undecided("C13.natural", "encode_natural: prefix bits decided by the truncated bit length")
         # no narrowing cast of the number (or of a length derived from it) anywhere in the encoder: "larger numbers are rejected,
         # not truncated" -- a number cut to 32 bits encodes as n mod 2^32 and decodes to a different number
         W = {"u8": 8, "i8": 8, "u16": 16, "i16": 16, "u32": 32, "i32": 32, "u64": 64, "i64": 64, "usize": 64, "isize": 64, "u128": 128, "i128": 128}
@@ -555,7 +566,10 @@ def run(ctx, rep):
         for E in evals(enc):
             for ev in calls(E, "::write_bits_be"):
                 wbe.append((E, ev))
-        if pops and not fwd and wbe:
+        revd = [cs for cs in enc.calls() if cs.name == "rev"]
+        if not pops and revd and wbe:
+            rep.ok("C13.natural", "suffixes written innermost first (reversed iteration)", None)
+        elif pops and not fwd and wbe:
             E, ev = wbe[0]
             a1, a2 = ev[3][1], ev[3][2]
             if str(a1).count("'.0'") and a1[0] == "proj" and a1[2] == ".0" and a2[0] == "proj" and a2[2] == ".1" and a1[1] == a2[1]:
